@@ -41,6 +41,10 @@ pub enum Sep {
     NestedComment(String, String, String, bool, bool),
     /// lone carriage return (an in-line blank occupying one column)
     Cr,
+    /// a long run of blanks: pushes what follows to columns beyond 255 / 4095 / 65535
+    Spaces(usize),
+    /// a long run of line breaks: pushes what follows to lines beyond 255 / 65535
+    Lines(usize),
 }
 
 impl Sep {
@@ -58,6 +62,8 @@ impl Sep {
             // (text ending in '*' directly in front of the inner "/*" would read "*/": keep them apart)
             Sep::NestedComment(x, y, z, a, b) => format!("{}/*{}{}/*{}*/{}*/{}", if *a { " " } else { "" }, x, if x.ends_with('*') || x.ends_with('/') { " " } else { "" }, y, z, if *b { " " } else { "" }),
             Sep::Cr => "\r".into(),
+            Sep::Spaces(n) => " ".repeat(*n),
+            Sep::Lines(n) => "\n".repeat(*n),
         }
     }
     /// does the separator keep two text items apart?
@@ -80,10 +86,12 @@ impl Sep {
             Sep::NestedComment(_, _, _, false, false) => "nested-comment-adjacent",
             Sep::NestedComment(..) => "nested-comment",
             Sep::Cr => "cr",
+            Sep::Spaces(_) => "long-run-of-blanks",
+            Sep::Lines(_) => "long-run-of-line-breaks",
         }
     }
     pub fn is_comment_or_break(&self) -> bool {
-        !matches!(self, Sep::Empty | Sep::Space | Sep::Tab | Sep::TwoSpaces | Sep::Cr)
+        !matches!(self, Sep::Empty | Sep::Space | Sep::Tab | Sep::TwoSpaces | Sep::Cr | Sep::Spaces(_))
     }
 }
 
@@ -117,6 +125,13 @@ pub fn sep_strategy(ascii_only: bool) -> BoxedStrategy<Sep> {
         1 => Just(Sep::TwoSpaces),
         1 => Just(Sep::SpaceLf),
         1 => Just(Sep::Cr),
+        1 => prop_oneof![
+            18 => (2..300usize).prop_map(Sep::Spaces),
+            12 => (4090..4100usize).prop_map(Sep::Spaces),
+            1 => (65530..65540usize).prop_map(Sep::Spaces),
+            9 => (250..260usize).prop_map(Sep::Lines),
+            1 => (65530..65540usize).prop_map(Sep::Lines),
+        ],
         3 => (line_comment_text(ascii_only), any::<bool>()).prop_map(|(t, b)| Sep::LineComment(t, b)),
         4 => (block_comment_text(ascii_only), any::<bool>(), any::<bool>()).prop_map(|(t, a, b)| Sep::BlockComment(t, a, b)),
         2 => (block_comment_text(ascii_only), block_comment_text(ascii_only), block_comment_text(ascii_only), any::<bool>(), any::<bool>()).prop_map(|(x, y, z, a, b)| Sep::NestedComment(x, y, z, a, b)),
